@@ -510,12 +510,85 @@ func calibrate() {
 	}
 }
 
+// liveExpiry watches a cached bundle cross its next-update instant in real
+// time. The workload uses the clock, the verdict does not depend on how fast
+// anything runs: a Fetch that BEGAN after the instant (clock read before the
+// call) and still returned the cached bundle served an expired bundle, however
+// loaded the machine is. which: "base" (the base list expires) or "delta" (a
+// fresh base whose delta expires).
+func liveExpiry(r *core.Run, which string) {
+	shape := "absent"
+	if which == "delta" {
+		shape = "uri1"
+	}
+	c := &Case{Shape: shape, Cache: true}
+	w := newWorld(c)
+	w.version = 2 // what the server publishes (numbers 20 / 21)
+	T := time.Now().Truncate(time.Second).Add(2 * time.Second)
+	mk := func(kind string, expiring bool) *x509.RevocationList {
+		l := &pki.CRL{IssuerRawName: issuer.Certs[1].RawSubject, SignKey: issuer.Keys[1], NextUpdate: pki.Future, Number: big.NewInt(910)}
+		if kind == "delta" {
+			l.Number, l.DeltaInd = big.NewInt(911), big.NewInt(910)
+		} else {
+			l.FreshestRaw = freshestRaw(shape)
+		}
+		if expiring {
+			l.NextUpdate = T
+		}
+		return pki.MustParseCRL(pki.BuildCRL(l))
+	}
+	cached := &crl.Bundle{BaseCRL: mk("base", which == "base")}
+	if which == "delta" {
+		cached.DeltaCRL = mk("delta", true)
+	}
+	w.cache.M[baseURL] = cached
+	before, inWindow, served := 0, 0, 0
+	for time.Now().Before(T.Add(1300 * time.Millisecond)) {
+		began := time.Now()
+		var b *crl.Bundle
+		var err error
+		if p := core.Guard(func() { b, err = w.fetcher.Fetch(context.Background(), baseURL) }); p != nil {
+			r.Count("panicked", 1)
+			return
+		}
+		r.Eval(1)
+		old := err == nil && b != nil && b.BaseCRL != nil && b.BaseCRL.Number.Int64() == 910
+		switch {
+		case !began.After(T):
+			before++
+		case began.Before(T.Add(time.Second)):
+			inWindow++
+		}
+		if old && began.After(T) {
+			served++
+			r.Violation("expired-bundle-served-at-the-boundary:"+which, fmt.Sprintf("a Fetch that began %v after the cached %s list's next-update instant returned the cached bundle", began.Sub(T), which),
+				map[string]any{"note": "live-expiry observation: re-run the check; the history is 'cache holds a bundle whose " + which + " list expires at T; fetch repeatedly across T'", "began_after_T_ns": began.Sub(T).Nanoseconds()})
+			return
+		}
+		time.Sleep(200 * time.Microsecond)
+	}
+	r.Count("live-expiry-fetches-before-the-instant", before)
+	r.Count("live-expiry-fetches-within-a-second-after", inWindow)
+	if inWindow == 0 {
+		r.Inconclusive("live expiry (" + which + "): no Fetch began within the second after next-update (machine too loaded); nothing was observed at the boundary")
+	} else {
+		r.Nontrivial("live-expiry " + which)
+	}
+}
+
 func run(r *core.Run) int {
 	r.Rule = "all histories up to depth 3 (quick; depth-4 seed sample) / depth 4 (thorough; plus depth 5 for four representative shapes) over {fetch, publish, put cache entry fresh / older version / base expired / delta expired / no next-update, arm cache Get fault, arm cache Set fault, arm server fault on base, on delta location 0/1/2 (kinds error, 404, garbage, non-CRL DER)} followed by a final fetch, " +
-		"x DiscardCacheError x cache present/absent x 16 freshest-CRL shapes (5 of them malformed in different places); non-trivial = at least 2 fetches or a fault / expiry op; distinct by history + configuration"
+		"x DiscardCacheError x cache present/absent x 16 freshest-CRL shapes (5 of them malformed in different places); plus two live observations of a cached bundle (base / delta) crossing its next-update instant under continuous fetching; non-trivial = at least 2 fetches or a fault / expiry op; distinct by history + configuration"
 	r.Assume("expired = nextUpdate 2001, fresh = 2096; CRL numbers identify version and variant of every returned CRL")
 	calibrate()
 	r.Set("uri_after_non_uri_name_counts_as_advertised", eitherCounts)
+	// two bundles cross their next-update instant while the histories run
+	var live sync.WaitGroup
+	for _, which := range []string{"base", "delta"} {
+		which := which
+		live.Add(1)
+		go func() { defer live.Done(); liveExpiry(r, which) }()
+	}
 	depth := r.Pick(3, 4)
 	var cases []*Case
 	nOps := len(opNames)
@@ -642,6 +715,7 @@ func run(r *core.Run) int {
 			}
 		})
 	}
+	live.Wait()
 	return r.Finish(r.Pick(2000, 200000),
 		core.Require{Counter: "fetch-hit", Why: "no cache hit"},
 		core.Require{Counter: "fetch-download", Why: "no download"},
